@@ -289,12 +289,23 @@ impl Property for C03 {
                     }
                     t += period;
                 }
-                conns.push(Conn { from: x, to: y, at_ms: tick_ms + rng.below(tick_ms), c2s, s2c, fin_c: None, fin_s: None, by_ip: rng.chance(1, 3) });
+                let drop_c = if rng.chance(1, 3) { Some(rng.range(3, run_ticks) * tick_ms + rng.below(tick_ms)) } else { None };
+                if let Some(dt) = drop_c {
+                    c2s.retain(|(at, _)| *at < dt);
+                    // the acceptor keeps writing after the drop
+                    let mut t = dt / tick_ms + 1;
+                    while t <= run_ticks + 2 && s2c.len() < 16 {
+                        s2c.push((t * tick_ms + rng.below(tick_ms), 1));
+                        t += rng.range(1, 3);
+                    }
+                    s2c.sort();
+                }
+                conns.push(Conn { from: x, to: y, at_ms: tick_ms + rng.below(tick_ms), c2s, s2c, fin_c: None, fin_s: None, by_ip: rng.chance(1, 3), drop_c });
                 // periodic connects
                 let k = rng.range(2, 5);
                 for j in 0..k {
                     let at = (2 + (run_ticks - 2) * j / k) * tick_ms + rng.below(tick_ms);
-                    conns.push(Conn { from: x, to: y, at_ms: at, c2s: vec![], s2c: vec![], fin_c: if rng.bool() { Some(at) } else { None }, fin_s: None, by_ip: false });
+                    conns.push(Conn { from: x, to: y, at_ms: at, c2s: vec![], s2c: vec![], fin_c: if rng.bool() { Some(at) } else { None }, fin_s: None, by_ip: false, drop_c: None });
                 }
             }
         }
@@ -315,7 +326,7 @@ impl Property for C03 {
             ephemeral: None,
             ipv6: rng.chance(1, 4),
         };
-        let mut net = Net { cfg, hosts: n, udp, conns, hacts: Vec::new(), script: Vec::new(), steps: 0, sample_links: false };
+        let mut net = Net { cfg, hosts: n, udp, conns, hacts: Vec::new(), script: Vec::new(), steps: 0, sample_links: false, probes: vec![] };
         // ---- where the actions go
         let gen_slot = |rng: &mut Rng, step: u32| -> Slot {
             let host = if rng.chance(2, 5) {
@@ -464,6 +475,13 @@ impl Property for C03 {
                     let h = hol.entry((conn, dir)).or_insert(0);
                     *h = (*h).max(send.t + lmax);
                     bound = *h;
+                    // a connector that drops its stream (possibly with unread data: an abortive close) owes
+                    // nothing for what was still on its way in either direction around that instant, nor later
+                    if let Some(dt) = net.conns[conn as usize].drop_c {
+                        if send.t + lmax + 3 * tick >= dt * 1000 {
+                            must = false;
+                        }
+                    }
                 }
                 Msg::Udp { .. } => {}
             }
@@ -550,6 +568,42 @@ impl Property for C03 {
                 }
             }
         }
+        // a stream whose connector dropped it while connector->acceptor was explicitly partitioned: nothing of
+        // the drop (FIN, RST, the RST answering later segments) may reach the acceptor, so the acceptor's end
+        // must not fail while that direction stays partitioned
+        if violation.is_none() {
+            for (di, d) in tr.evs.iter().enumerate() {
+                let EvKind::Dropped { conn } = &d.kind else { continue };
+                let spec = &net.conns[*conn as usize];
+                let dir = (spec.from, spec.to);
+                let (f, _, _) = fate_of(&tr.evs, &calls, di, dir, lmin, lmax, tick);
+                let Fate::NeverSentDuring(c) = f else { continue };
+                rep.probes.inc("stream_dropped_behind_an_explicit_partition");
+                let prefix_w = format!("conn {conn} dir 1 write:");
+                let prefix_r = format!("conn {conn} dir 0 read:");
+                for e in tr.evs[di..].iter() {
+                    // the first call after the drop that touches the direction ends the judged interval
+                    if calls.iter().any(|k| tr.evs[k.ev].seq == e.seq && k.dirs.contains(&dir)) {
+                        break;
+                    }
+                    if let EvKind::IoErr(msg) = &e.kind {
+                        if e.host == Some(spec.to) && (msg.starts_with(&prefix_w) || msg.starts_with(&prefix_r)) && !calls.iter().any(|k| k.dirs.contains(&dir) && links::order_ambiguous(&tr.evs[k.ev], e)) {
+                            violation = Some(Violation::new(
+                                "DeliveredWhilePartitioned",
+                                format!(
+                                    "connection {conn}: h{} dropped its stream at event {} (t={}us) while h{}->h{} was explicitly partitioned by {}; nothing h{} sent since can have been delivered, yet h{}'s end failed at event {} (t={}us): {msg}",
+                                    spec.from, d.seq, d.t, spec.from, spec.to, describe_call(c), spec.from, spec.to, e.seq, e.t
+                                ),
+                            ));
+                            break;
+                        }
+                    }
+                }
+                if violation.is_some() {
+                    break;
+                }
+            }
+        }
         // connects whose SYN crossed a healthy direction while the reverse one was partitioned: recorded only
         rep.faults.add("message_sent_into_partition", sent_during);
         rep.faults.add("message_in_flight_at_partition_call", in_flight);
@@ -625,7 +679,7 @@ mod tests {
 
     #[test]
     fn fates_on_a_hand_written_history() {
-        let net = Net { cfg: SimCfg { min_latency_us: 3000, max_latency_us: 3000, ..SimCfg::default() }, hosts: 2, udp: vec![], conns: vec![], hacts: vec![], script: vec![], steps: 1, sample_links: false };
+        let net = Net { cfg: SimCfg { min_latency_us: 3000, max_latency_us: 3000, ..SimCfg::default() }, hosts: 2, udp: vec![], conns: vec![], hacts: vec![], script: vec![], steps: 1, sample_links: false, probes: vec![] };
         let m = |s| EvKind::Send(Msg::Udp { from: 0, to: 1, seq: s });
         let evs = vec![
             ev(1, 2, 1000, Some(0), m(0)),                                                   // arrives at 4000/5000 <= 5000: flows
@@ -648,7 +702,7 @@ mod tests {
 
     #[test]
     fn one_tick_zone_is_unjudged() {
-        let net = Net { cfg: SimCfg::default(), hosts: 2, udp: vec![], conns: vec![], hacts: vec![], script: vec![], steps: 1, sample_links: false };
+        let net = Net { cfg: SimCfg::default(), hosts: 2, udp: vec![], conns: vec![], hacts: vec![], script: vec![], steps: 1, sample_links: false, probes: vec![] };
         // sent at t=2200 inside step 3 (link clock 3000), latency 2000: sender-clock reading says arrived at 4200,
         // link-clock reading says 5000; a partition at 4500 (controller calls sit on boundaries, so use a host call)
         let evs = vec![
@@ -663,15 +717,15 @@ mod tests {
     #[test]
     fn repo_scenarios_pass_the_oracle() {
         let cfg = SimCfg { min_latency_us: 2000, max_latency_us: 2000, tick_us: 1000, ..SimCfg::default() };
-        let conn = |at| Conn { from: 1, to: 0, at_ms: at, c2s: vec![], s2c: vec![], fin_c: None, fin_s: None, by_ip: false };
+        let conn = |at| Conn { from: 1, to: 0, at_ms: at, c2s: vec![], s2c: vec![], fin_c: None, fin_s: None, by_ip: false, drop_c: None };
         let udp = vec![UdpBurst { from: 0, to: 1, at_ms: 3, count: 1, by_ip: false }, UdpBurst { from: 1, to: 0, at_ms: 3, count: 1, by_ip: false }, UdpBurst { from: 0, to: 1, at_ms: 12, count: 1, by_ip: false }];
-        let net = Net { cfg: cfg.clone(), hosts: 2, udp: udp.clone(), conns: vec![conn(2), conn(12)], hacts: vec![], script: vec![(1, Act::Partition(Sel::Name(0), Sel::Name(1))), (10, Act::Repair(Sel::Name(0), Sel::Name(1)))], steps: 30, sample_links: false };
+        let net = Net { cfg: cfg.clone(), hosts: 2, udp: udp.clone(), conns: vec![conn(2), conn(12)], hacts: vec![], script: vec![(1, Act::Partition(Sel::Name(0), Sel::Name(1))), (10, Act::Repair(Sel::Name(0), Sel::Name(1)))], steps: 30, sample_links: false, probes: vec![] };
         let rep = C03::run(&Scenario { net, guarded: true, pair: (0, 1), slots: vec![] }, true);
         assert!(rep.violation.is_none(), "{:?}\n{}", rep.violation, rep.log.join("\n"));
         assert!(rep.log.iter().any(|l| l.contains("ConnErr { conn: 0")));
         assert!(rep.log.iter().any(|l| l.contains("ConnOk { conn: 1")));
         assert_eq!(rep.log.iter().filter(|l| l.contains("Recv(Udp")).count(), 1);
-        let net = Net { cfg, hosts: 2, udp, conns: vec![], hacts: vec![], script: vec![(1, Act::PartitionOneway(Sel::Name(0), Sel::Name(1)))], steps: 30, sample_links: false };
+        let net = Net { cfg, hosts: 2, udp, conns: vec![], hacts: vec![], script: vec![(1, Act::PartitionOneway(Sel::Name(0), Sel::Name(1)))], steps: 30, sample_links: false, probes: vec![] };
         let rep = C03::run(&Scenario { net, guarded: true, pair: (0, 1), slots: vec![] }, true);
         assert!(rep.violation.is_none(), "{:?}", rep.violation);
         assert_eq!(rep.log.iter().filter(|l| l.contains("Recv(Udp { from: 1")).count(), 1);
